@@ -4,7 +4,7 @@ Import ListNotations.
 Open Scope string_scope.
 
 Definition seq_out (r : res (outcome * world)) (k : env -> world -> res (outcome * world)) : res (outcome * world) :=
-  do ow <- r; match fst ow with ONormal ρ' => k ρ' (snd ow) | OReturn v => Ok (OReturn v, snd ow) end.
+  do ow <- r; match fst ow with ONormal ρ' => k ρ' (snd ow) | _ => Ok ow end.
 
 Lemma run_stmts_app step l1 l2 ρ w :
   run_stmts step (l1 ++ l2) ρ w = seq_out (run_stmts step l1 ρ w) (fun ρ' w' => run_stmts step l2 ρ' w').
@@ -12,7 +12,7 @@ Proof.
   revert ρ w; induction l1 as [|s l1 IH]; intros ρ w; [reflexivity|].
   cbn [app run_stmts]. unfold seq_out in *.
   destruct (step s ρ w) as [[o w'] | | | ]; cbn [bind]; try reflexivity.
-  destruct o; cbn [fst snd]; [apply IH|reflexivity].
+  destruct o; cbn [fst snd]; [apply IH|reflexivity|reflexivity].
 Qed.
 Lemma run_stmts_one step s ρ w :
   run_stmts step [s] ρ w = seq_out (step s ρ w) (fun ρ' w' => Ok (ONormal ρ', w')).
@@ -20,7 +20,8 @@ Proof. reflexivity. Qed.
 
 Section U.
 Variable G : fenv.
-Lemma exec_S f ss ρ w : exec G (S f) ss ρ w = run_stmts (exec_stmt (eval G f) (exec G f) f) ss ρ w.
+Definition tails (cls m : string) : option oracle := match methods G cls m with Some (CTail o) => Some o | _ => None end.
+Lemma exec_S f ss ρ w : exec G (S f) ss ρ w = run_stmts (exec_stmt tails (eval G f) (evals_with (eval G f)) (exec G f) f) ss ρ w.
 Proof. reflexivity. Qed.
 Lemma call_fun f fd self args kws w :
   call G (S f) (CFun fd) self args kws w =
@@ -31,7 +32,11 @@ Lemma call_fun f fd self args kws w :
             | rest, Some k => Ok ((fst b ++ [(k, kw_dict rest)])%list)
             | _ :: _, None => Exc "TypeError" end;
    do ow <- exec G f (f_body fd) ρ0 w;
-   Ok (match fst ow with OReturn v => v | ONormal _ => VNone end, snd ow)).
+   match fst ow with
+   | OReturn v => Ok (v, snd ow)
+   | ONormal _ => Ok (VNone, snd ow)
+   | OTail o targs tkws => o targs tkws (snd ow)
+   end).
 Proof. reflexivity. Qed.
 End U.
 
